@@ -264,6 +264,15 @@ def render_e5(lname):
             "function main() -> void { int add = 5; A a = new A(); echo(a.run(1) + add); echo(a.twice()); echo(free(2)); }\n" % ((lname,) * 9))
 
 
+def render_e6(lname):
+    """(seed C09-3) the destructors of a class chain each run in a frame of their own: a top-level local of the subclass's destructor (or of the
+    middle class's) named like a field the base destructor reads by its bare name"""
+    return ("class Sensor { private int pending = 7; public int gain = 2; public constructor() -> Sensor = default; public destructor() -> void { echo(\"Sensor flushes \" + pending + \" \" + gain); } }\n"
+            "class Mid extends Sensor { public int offset = 3; public constructor() -> Mid { super(); } public destructor() -> void { int %s = offset * 10; echo(\"Mid drops \" + %s); } }\n"
+            "class Cal extends Mid { public constructor() -> Cal { super(); } public destructor() -> void { int %s = offset * 100; echo(\"Cal drops \" + %s); } }\n"
+            "function main() -> void { { Cal c = new Cal(); } Mid m = new Mid(); m = null; echo(\"done\"); }\n" % ((lname,) * 4))
+
+
 def e_items(tier):
     items = []
     for k in ((3, 4) if tier != "thorough" else (3, 4, 5)):
@@ -279,6 +288,7 @@ def e_items(tier):
     for sn in ("N", "size"):
         items.append((("E4", sn), [(sn, ln) for ln in (sn, "data", "qs", "a", "m")]))
     items.append((("E5",), [(ln,) for ln in ("add", "helper", "run", "twice", "free", "a", "main")]))
+    items.append((("E6",), [(ln,) for ln in ("pending", "gain", "c", "m", "offset2")]))
     return items
 
 
@@ -293,6 +303,8 @@ def _one_e(item):
         ref_src = render_e4(tag[1], "u0")
     elif tag[0] == "E5":
         ref_src = render_e5("u0")
+    elif tag[0] == "E6":
+        ref_src = render_e6("u0")
     else:
         ref_src = render_e2("plainS", "plainF", "W")
     r0 = vdrv.run_src(ref_src, gc="own", warn=0)
@@ -300,7 +312,7 @@ def _one_e(item):
         return tag, [("reference", ref_src, "the uniquely named variant did not run: %s %s" % (r0.status(), (r0.rec or {}).get("msg", r0["fd2"][:200])))], 1, None
     want = (r0.rec["status"], r0.rec["stdout"])
     for v in variants:
-        src = render_e1(list(v)) if tag[0] == "E1" else render_e3(*v) if tag[0] == "E3" else render_e4(*v) if tag[0] == "E4" else render_e5(*v) if tag[0] == "E5" else render_e2(*v)
+        src = render_e1(list(v)) if tag[0] == "E1" else render_e3(*v) if tag[0] == "E3" else render_e4(*v) if tag[0] == "E4" else render_e5(*v) if tag[0] == "E5" else render_e6(*v) if tag[0] == "E6" else render_e2(*v)
         r = vdrv.run_src(src, gc="own", warn=0)
         n += 1
         if r.crash:
@@ -313,7 +325,7 @@ def _one_e(item):
 
 
 def _one(item):
-    if item[0][0] in ("E1", "E2", "E3", "E4", "E5"):
+    if item[0][0] in ("E1", "E2", "E3", "E4", "E5", "E6"):
         return _one_e(item)
     if item[0][0] == "D":
         return _one_d((item[0][1:], item[1]))
@@ -369,7 +381,7 @@ def main(tier):
     for it in e_items(tier):
         items.append(it)
         total += len(it[1])
-    items.sort(key=lambda it: 0 if it[0][0] in ("D", "E1", "E2") else 1)      # the small family first: it completes even if the deadline cuts the rest
+    items.sort(key=lambda it: 0 if (it[0][0] == "D" or str(it[0][0]).startswith("E")) else 1)      # the small family first: it completes even if the deadline cuts the rest
     outs = set()
     nruns = 0
     done = 0
